@@ -915,9 +915,11 @@ func (self *LockDB) restructuringLongTimeOutQueue(longLocks *LongWaitLockQueue) 
 		_ = longLocks.Push(lock)
 	}
 
+	tailNodeIndex = longLocks.locks.nodeIndex
 	for tailNodeIndex > longLocks.locks.tailNodeIndex+1 {
 		longLocks.locks.queues[tailNodeIndex] = nil
 		longLocks.locks.nodeQueueSizes[tailNodeIndex] = 0
+		longLocks.locks.nodeIndex--
 		tailNodeIndex--
 	}
 	longLocks.locks.queueSize = longLocks.locks.baseQueueSize * int32(uint32(1)<<uint32(tailNodeIndex))
@@ -1177,9 +1179,11 @@ func (self *LockDB) restructuringLongExpriedQueue(longLocks *LongWaitLockQueue) 
 		_ = longLocks.Push(lock)
 	}
 
+	tailNodeIndex = longLocks.locks.nodeIndex
 	for tailNodeIndex > longLocks.locks.tailNodeIndex+1 {
 		longLocks.locks.queues[tailNodeIndex] = nil
 		longLocks.locks.nodeQueueSizes[tailNodeIndex] = 0
+		longLocks.locks.nodeIndex--
 		tailNodeIndex--
 	}
 	longLocks.locks.queueSize = longLocks.locks.baseQueueSize * int32(uint32(1)<<uint32(tailNodeIndex))
